@@ -51,29 +51,36 @@ impl<C: Cursor> Cursor for ConcatenatingCursor<C> {
         let mut right = self.cursors.len() - 1;
 
         while left < right {
-            let mut mid = (left + right) / 2;
-            self.reposition(mid)?;
-            self.cursors[self.position].seek_to_last()?;
-            self.cursors[self.position].prev()?;
-            while mid > left && self.cursors[self.position].key().is_none() {
-                mid -= 1;
-                self.reposition(mid)?;
+            let mid = (left + right) / 2;
+            // Probe the last key of the nearest non-empty cursor at or before mid.
+            let mut probe = mid;
+            loop {
+                self.reposition(probe)?;
                 self.cursors[self.position].seek_to_last()?;
                 self.cursors[self.position].prev()?;
+                if self.cursors[self.position].key().is_some() || probe == left {
+                    break;
+                }
+                probe -= 1;
             }
-            if mid == left {
-                break;
-            }
-            // SAFETY(rescrv):  We have a loop invariant above that goes until is_some or the
-            // conditional right above us.
-            if self.cursors[self.position].key().unwrap() >= kref {
-                right = mid;
-            } else {
-                left = mid + 1;
+            match self.cursors[self.position].key() {
+                // The first cursor whose last key reaches the target is at or before probe.
+                Some(last) if last >= kref => right = probe,
+                // Everything in left..=mid is empty or entirely before the target.
+                _ => left = mid + 1,
             }
         }
         self.reposition(left)?;
-        self.cursors[self.position].seek(key)
+        self.cursors[self.position].seek(key)?;
+        // The chosen cursor may be empty or exhausted; the sought key then lives in a later cursor.
+        while self.cursors[self.position].key().is_none()
+            && self.position + 1 < self.cursors.len()
+        {
+            self.reposition(self.position + 1)?;
+            self.cursors[self.position].seek_to_first()?;
+            self.cursors[self.position].next()?;
+        }
+        Ok(())
     }
 
     fn prev(&mut self) -> Result<(), SError> {
